@@ -4,6 +4,7 @@ Euclidean division of the raw bits.
   rem a b     => %  %=  checked_rem  rem_euclid  checked_rem_euclid
                  div_euclid checked_ saturating_ wrapping_ overflowing_div_euclid
   rem_int a i => %  %=  checked_rem_int(inherent) checked_rem_int(trait)
+                 wrapping_rem_int overflowing_rem_int (deprecated; inherent, then the trait's provided methods)
                  rem_euclid_int checked_ wrapping_ overflowing_rem_euclid_int
                  div_euclid_int checked_ wrapping_ overflowing_div_euclid_int
   rem_r / rem_int_r => by-reference spellings of %
@@ -19,6 +20,8 @@ FORMS = {
             ("wrapping_div_euclid", "w", "q"), ("overflowing_div_euclid", "o", "q")],
     "rem_int": [("rem_int", "p", "t"), ("rem_int_assign", "p", "t"), ("checked_rem_int", "c", "t"),
                 ("checked_rem_int_trait", "c", "t"),
+                ("wrapping_rem_int", "w", "t"), ("overflowing_rem_int", "o", "t"),
+                ("wrapping_rem_int_trait", "w", "t"), ("overflowing_rem_int_trait", "o", "t"),
                 ("rem_euclid_int", "p", "r"), ("checked_rem_euclid_int", "c", "r"),
                 ("wrapping_rem_euclid_int", "w", "r"), ("overflowing_rem_euclid_int", "o", "r"),
                 ("div_euclid_int", "p", "q"), ("checked_div_euclid_int", "c", "q"),
